@@ -1460,6 +1460,10 @@ func runStore(rep *Report, replay string) {
 		if p.name == "C02" {
 			n *= 3 // short histories as well
 		}
+		switch p.name {
+		case "C03", "C04", "C06", "C15", "C16", "C19":
+			n *= 2 // cheap profiles: twice the histories, so that detection depends less on the seed
+		}
 		if v := envInt("VERIF_CASES"); v > 0 {
 			n = v
 		}
